@@ -277,8 +277,15 @@ def rule_a(ctx: Context, R: Reporter, f: FuncInfo):
     ok_z = False
     for d in zdefs:
         v = d.value
+        lse_at = d.node
+        if isinstance(v, ast.BinOp) and isinstance(v.op, ast.Sub) and isinstance(v.left, ast.Name):
+            # the log-sum-exp bound to a local first (`log_norm = logsumexp(logw)`, shared with the normalisation)
+            ld = flow.reaching(d.node, v.left.id)
+            if len(ld) == 1 and ld[0].kind == "assign" and isinstance(ld[0].value, ast.Call) and not ld[0].path and ld[0].node is not None:
+                v = ast.BinOp(left=ld[0].value, op=v.op, right=v.right)
+                lse_at = ld[0].node
         if isinstance(v, ast.BinOp) and isinstance(v.op, ast.Sub) and isinstance(v.left, ast.Call) and (ctx.res.external_name(f, v.left) or "") in ("numpy.logaddexp.reduce", "scipy.special.logsumexp") \
-                and v.left.args and isinstance(v.left.args[0], ast.Name) and v.left.args[0].id == lw_name and any(x.node is base.node for x in flow.reaching(d.node, lw_name)) and len(flow.reaching(d.node, lw_name)) == 1:
+                and v.left.args and isinstance(v.left.args[0], ast.Name) and v.left.args[0].id == lw_name and any(x.node is base.node for x in flow.reaching(lse_at, lw_name)) and len(flow.reaching(lse_at, lw_name)) == 1:
             cnt = v.right
             if isinstance(cnt, ast.Call) and (ctx.res.external_name(f, cnt) or "") == "numpy.log" and cnt.args:
                 c0 = rs.resolve(cnt.args[0], d.node)
